@@ -992,7 +992,13 @@ class Enum(Generic, PrimitiveType):
   def is_compatible(self, other: ValueSpec) -> bool:
     """Enum specific compatibility check."""
     if other.frozen and other.default in self.values:
-      return True
+      # `in` compares with ==; the frozen value must also pass the type check
+      # of this Enum (1.0 == 1, but an int Enum refuses 1.0).
+      try:
+        self.apply(other.default)
+        return True
+      except (TypeError, ValueError):
+        pass
     return super().is_compatible(other)
 
   def _is_compatible(self, other: 'Enum') -> bool:
